@@ -120,7 +120,11 @@ Fixpoint file_phase (fuel : nat) (c : jcfg) (w : world) (lowest : N) (fevs : lis
           match (if j_mode c =? 2
                  then match j_cursor c with Some cu => hub_through_cursor (h_f (w_hub w)) n cu | None => BErr end
                  else blocks_from_num (h_f (w_hub w)) n) with
-          | BOk evs => if h_ready (w_hub w) then Some evs else None
+          | BOk evs =>
+              (* fix: outside target mode the join is made on the IDENTITY of the file block (SourceFromBlockRef):
+                 the hub answers only when its canonical block of that height is this very block *)
+              let same := (j_mode c =? 2) || match evs with b0 :: _ => bid (eblk b0) =? bid (eblk e) | [] => false end in
+              if h_ready (w_hub w) && same then Some evs else None
           | _ => None
           end
         else None in
